@@ -153,11 +153,26 @@ def _canon_resource(env: dict[str, Any], override: Any = None) -> str:
     return f"{rtype}:{rid}" if rid is not None else f"{rtype}:"
 
 
+def _canon_text(v: Any) -> str:
+    """Order-insensitive text of a value that keeps values of different types apart."""
+    if isinstance(v, dict):
+        items = sorted((repr(k), _canon_text(x)) for k, x in v.items())
+        return "{" + ",".join(f"{k}:{x}" for k, x in items) + "}"
+    if isinstance(v, (list, tuple)):
+        return ("[" if isinstance(v, list) else "(") + ",".join(_canon_text(x) for x in v) + "]"
+    return f"{type(v).__module__}.{type(v).__qualname__}:{v!r}"
+
+
 def _ctx_hash(ctx: dict[str, Any] | None) -> str:
     if not ctx:
         return ""
     try:
-        return json.dumps(ctx, sort_keys=True, separators=(",", ":"), default=str)
+        # plain JSON values only: no default=, so a datetime cannot be mistaken for the string that spells it
+        return json.dumps(ctx, sort_keys=True, separators=(",", ":"))
+    except Exception:
+        pass
+    try:
+        return "!" + _canon_text(ctx)
     except Exception:
         return repr(ctx)
 
